@@ -100,6 +100,31 @@ def tokens_consts(q, panic):
     return {"NE": "= 3" if q else "= 4", "NW": "= 2", "C": "= {1, 2}", "Panic": "= TRUE" if panic else "= FALSE", "BagOnPanic": '= "leak"'}
 
 
+def apalache_spawn_loop(work):
+    """Unbounded thread bound: Apalache discharges the inductive invariant of SpawnLoop.tla for every
+    max_num_threads >= 1 (initiation, consecution, IndInv => ThreadBound)."""
+    t0 = time.time()
+    obligations = [("initiation", ["--init=Init", "--inv=IndInv", "--length=0"]),
+                   ("consecution", ["--init=IndInv", "--inv=IndInv", "--length=1"]),
+                   ("IndInv => ThreadBound", ["--init=IndInv", "--inv=ThreadBound", "--length=0"])]
+    done, outs = 0, []
+    outdir = os.path.join(work, "apalache")
+    for name, args in obligations:
+        try:
+            r = subprocess.run(["apalache-mc", "check", "--cinit=ConstInit", f"--out-dir={outdir}"] + args + ["SpawnLoop.tla"],
+                               cwd=SPEC, stdout=subprocess.PIPE, stderr=subprocess.STDOUT, text=True, timeout=600)
+            ok = r.returncode == 0 and "The outcome is: NoError" in r.stdout
+            outs.append(r.stdout[-600:])
+        except subprocess.TimeoutExpired:
+            ok = False
+        done += 1 if ok else 0
+    shutil.rmtree(outdir, ignore_errors=True)
+    return {"name": "SpawnLoop.tla: inductive invariant of the spawn loop for every max_num_threads (Apalache)", "ok": done == len(obligations),
+            "rc": 0 if done == len(obligations) else 1, "generated": done, "distinct": done, "wall_s": round(time.time() - t0, 2),
+            "bounds": {"MaxT": "any integer >= 1"}, "invariants": ["IndInv", "ThreadBound"], "out": "\n".join(outs),
+            "obligations": len(obligations), "discharged": done}
+
+
 def model_check_for(prop, tier, work):
     res = []
     for (name, module, consts, invs, props) in plan(prop, tier):
@@ -115,6 +140,8 @@ def model_check_for(prop, tier, work):
         r["bounds"] = consts
         r["invariants"] = invs + props
         res.append(r)
+    if prop == "C08":
+        res.append(apalache_spawn_loop(work))
     return res
 
 
